@@ -281,6 +281,11 @@ func concurrentHeaders() {
 		wg.Add(1)
 		go func() {
 			defer wg.Done()
+			defer func() {
+				if x := recover(); x != nil && atomic.CompareAndSwapInt32(&stop, 0, 1) {
+					bad("concurrent/panic", fmt.Sprintf("worker %d: a header function panicked on a well-formed 20-byte header: %v", w, x), nil)
+				}
+			}()
 			r := fw.NewRand(run.Seed, "C15", "conc", w)
 			h := header.TCP(make([]byte, 20))
 			for i := 0; i < per && atomic.LoadInt32(&stop) == 0; i++ {
